@@ -63,7 +63,7 @@ def run_shards(tag, cmds, timeout_s):
             if os.path.exists(outfile):
                 os.remove(outfile)
             lf = open(outfile + ".log", "w")
-            p = subprocess.Popen(argv, cwd=ROOT, env=ENV, stdout=lf, stderr=subprocess.STDOUT)
+            p = subprocess.Popen(argv, cwd=ROOT, env=ENV, stdout=lf, stderr=subprocess.STDOUT, start_new_session=True)
             running.append((p, argv, outfile, lf))
         time.sleep(0.02)
         still = []
@@ -71,7 +71,10 @@ def run_shards(tag, cmds, timeout_s):
             rc = p.poll()
             if rc is None:
                 if time.time() > deadline:
-                    p.kill()
+                    try:
+                        os.killpg(p.pid, 9)  # the monitor may have children of its own
+                    except Exception:
+                        p.kill()
                     p.wait()
                     lf.close()
                     results.append((outfile, "timeout", ""))
@@ -111,6 +114,33 @@ def merge_reports(files):
         merged["inconclusive"].extend(d.get("inconclusive", []))
         merged["notes"].extend(d.get("notes", []))
     return merged
+
+
+def thread_dependence(viols):
+    """C14 diagnosis by counterfactual: a violation of a *shared* (global/async) cache seen in a
+    history whose calls came from several threads is replayed with every call issued by one
+    thread.  If the single-thread replay is clean, the behaviour depends on which thread calls -
+    'a value stored by one thread is served to every other one' (C14) - whatever it looked like."""
+    done = {}
+    for v in viols:
+        w = v.get("witness", {})
+        parts = v["sig"].split("|")
+        if w.get("monitor") != "l2mon" or w.get("actors", 1) < 2 or v.get("property") == "C14" or parts[2] == "thread":
+            continue
+        if v["sig"] not in done:
+            if len(done) >= 12:
+                continue
+            tmp = os.path.join(OUT, "c14-counterfactual.json")
+            json.dump(v, open(tmp, "w"))
+            r = subprocess.run([bin_path("l2mon"), "--replay", tmp, "--single-actor", "--out", "/dev/null"], cwd=ROOT, env=ENV, stdout=subprocess.PIPE, stderr=subprocess.STDOUT, text=True)
+            done[v["sig"]] = r.returncode
+        if done[v["sig"]] == 0:
+            v["base_property"] = v["property"]
+            parts[0] = "C14"
+            parts[4] = parts[4] + "-only-when-calls-come-from-several-threads"
+            v["property"] = "C14"
+            v["sig"] = "|".join(parts)
+            v["what"] += " (the same history with all calls issued by one thread shows no violation)"
 
 
 HARD_BOUND_KINDS = {"limit-exceeded", "memory-exceeded", "oversized-cached"}
@@ -439,6 +469,8 @@ def main():
                 v["also_refutes"] = src
                 v["property"] = pid
                 v["sig"] = "|".join(parts)
+    if pid == "C14":
+        thread_dependence(merged["violations"])
     known = load_known()
     os.makedirs(REPLAYS, exist_ok=True)
     for old in glob.glob(os.path.join(REPLAYS, f"{pid}-{seed}-*.json")):
